@@ -1,21 +1,11 @@
 import NimaVerif.Lemmas.Frag
+import NimaVerif.Model.FragSpec
 /-! The lexical content (code tokens and comment tokens, in order) of the piece-level renderer's
 output, for expressions as `fromCst` builds them. Core Lean only. -/
 namespace Nima.Frag
 open Nima
 
 /-! ### lexical content of a piece list -/
-
-def FP.lex? : FP → Option Lex
-  | .tok s => some (.tok s)
-  | .cmt s => some (.cmt s)
-  | .ws _ => none
-
-/-- the tokens and comments of a piece list, in order (whitespace left out) -/
-def lexOf (ps : List FP) : List Lex := ps.filterMap FP.lex?
-
-/-- the code tokens of a piece list -/
-def toks (ps : List FP) : List Text := (lexOf ps).filterMap Lex.tok?
 
 @[simp] theorem lexOf_nil : lexOf [] = [] := rfl
 @[simp] theorem lexOf_append (a b : List FP) : lexOf (a ++ b) = lexOf a ++ lexOf b := by simp [lexOf]
